@@ -35,7 +35,8 @@ Qed.
 Lemma revcomp_length s : length (revcomp s) = length s.
 Proof. unfold revcomp. rewrite rev_length, map_length. reflexivity. Qed.
 
-Definition base (c : N) : Prop := In c [65;67;71;84;78;97;99;103;116;110]%N.
+(* the letters of pyfaidx's complement table: ACGTN and the IUPAC ambiguity codes, both cases *)
+Definition base (c : N) : Prop := In c [65;67;84;71;78;97;99;116;103;110;89;82;87;83;75;77;68;86;72;66;88;121;114;119;115;107;109;100;118;104;98;120]%N.
 
 Lemma comp_involutive c : base c -> comp (comp c) = c.
 Proof. unfold base. simpl. intros H. repeat (destruct H as [H|H]; [subst c; reflexivity|]). contradiction. Qed.
